@@ -157,7 +157,9 @@ PROPS = {
                 "ymodsst (the modules of C11's stream with no other fault than 'ref-status': status statements on the typedefs of three modules and on the leaves that use them, chains within and across modules: a definition may refer to a definition of its own module that is no more obsolete than itself)",
     },
     "C12": {
-        "streams": {"yuses": {"quick": 6000, "thorough": 150000}},
+        "streams": {"yuses": {"quick": 6000, "thorough": 150000},
+                    # submodules: what is written in one belongs to its module; augments into notifications
+                    "ymodsst": {"quick": 400, "thorough": 20000}},
         "trusted": ["the generator writes the inline module first and factors parts of it out (groupings, refines, augments under uses, module-level augments): the two modules are equivalent by construction of the factoring steps",
                     "the canonical dump of a compiled ModelSet and the error classes (harness)"],
         "modelled": ["refines of must / description / reference, submodules, opd:augment are not generated",
